@@ -39,9 +39,16 @@ const prop = "C14"
 type Pair struct {
 	Key string `json:"key"`
 	Q   bool   `json:"q,omitempty"` // key written in single quotes
-	Src string `json:"src"`         // path | str | num | bool | gt
+	Src string `json:"src"`         // path | str | num | bool | gt | not | tern
 	Arg string `json:"arg"`         // path name / literal text
 	N   int    `json:"n,omitempty"` // gt: `Arg > N`
+	// not:  `!Arg`                         (Arg is a path holding a bool)
+	// tern: `Arg ? Then : Else`, with Neg `!Arg ? Then : Else`; Alt says what Then / Else are:
+	//       str (written in single quotes), num, path
+	Neg  bool   `json:"neg,omitempty"`
+	Alt  string `json:"alt,omitempty"`
+	Then string `json:"then,omitempty"`
+	Else string `json:"else,omitempty"`
 }
 
 // Attr is one attribute of the element, in source order.
@@ -135,6 +142,20 @@ func pairSrc(p Pair) string {
 		return k + ": '" + p.Arg + "'"
 	case "gt":
 		return fmt.Sprintf("%s: %s > %d", k, p.Arg, p.N)
+	case "not":
+		return k + ": !" + p.Arg
+	case "tern":
+		alt := func(t string) string {
+			if p.Alt == "str" {
+				return "'" + t + "'"
+			}
+			return t
+		}
+		neg := ""
+		if p.Neg {
+			neg = "!"
+		}
+		return k + ": " + neg + p.Arg + " ? " + alt(p.Then) + " : " + alt(p.Else)
 	}
 	return k + ": " + p.Arg // path, num, bool
 }
@@ -309,6 +330,32 @@ func (c Case) pairVal(p Pair, k int) (v vals.V, truthy, specified bool) {
 		}
 		n, _ := strconv.Atoi(x.S)
 		v = vals.Bool(n > p.N)
+	case "not", "tern":
+		x := c.lookup(p.Arg, k)
+		if x.K != "bool" {
+			// negating / branching on a non-boolean operand: C13's subject, not asserted here
+			return vals.Missing(), false, false
+		}
+		cond := x.S == "true"
+		if p.Src == "not" {
+			v = vals.Bool(!cond)
+			break
+		}
+		if p.Neg {
+			cond = !cond
+		}
+		pickd := p.Else
+		if cond {
+			pickd = p.Then
+		}
+		switch p.Alt {
+		case "str":
+			v = vals.Str(pickd)
+		case "num":
+			v = vals.Num("int", pickd)
+		default:
+			v = c.lookup(pickd, k)
+		}
 	}
 	truthy, specified = v.Truthy()
 	return
@@ -340,11 +387,16 @@ const malformed = "\x00malformed"
 func splitDecls(s string) []string {
 	var parts []string
 	depth, start := 0, 0
+	escaped := false
 	var quote rune
 	for i, r := range s {
 		switch {
+		case escaped:
+			escaped = false // the character after a backslash inside a string is part of the string
 		case quote != 0:
-			if r == quote {
+			if r == '\\' {
+				escaped = true
+			} else if r == quote {
 				quote = 0
 			}
 		case r == '\'' || r == '"':
